@@ -393,6 +393,9 @@ func gen(body []byte) *core.Verdict {
 					if f.Iff == nil {
 						f.Iff = []string{}
 					}
+					if f.Dv == nil {
+						f.Dv = []string{}
+					}
 					fs = append(fs, f)
 				}
 				flat[n] = fs
